@@ -68,6 +68,15 @@ CLAIMED = {
         "DESIGN.md 4 C07",
         "",
     ),
+    "C09": (
+        "enumeration of all switch subsets x base lines with Hypothesis-drawn placements; metamorphic position-invariance and after-separator relations; validity predicates on streams and the IO state seen by the handler; differential help page",
+        "All 2^7 subsets of the global switches (long/short spellings) inserted at generated positions after the command path of 6 base "
+        "lines under the default application config: quiet silence, verbosity level and visible message levels, ANSI forced / removed, "
+        "question default without reading, help page equal to the directly rendered CommandHelp, version text, status 0 without the "
+        "handler, identical results for all placements, and no effect when the same tokens stand after '--'.",
+        "DESIGN.md 4 C09",
+        "",
+    ),
     "C10": (
         "complete enumeration of the gate table (reflected entry points x verbosity x flags x quiet x formatter x stream kind) against the stated gate predicate",
         "Every public writer with a flags parameter found by reflection on IO/Output/SectionOutput (plus section clear/overwrite) is "
